@@ -65,9 +65,15 @@ End Statements.
     tree id unchanged, the real snapshot keeps every tracked path outside the new patterns
     (and returns the identical tree on clean steps), untouched / confined for the two
     diffs, no file counted as updated, and on clean steps the disk is exactly the tree
-    inside the new patterns with the exact statistics. *)
+    inside the new patterns with the exact statistics. The steps of a session run inside one
+    locked working copy ([sess_okp]) are judged against the patterns that are CURRENT at
+    that moment: set_sparse_patterns as above and the recorded patterns are the new ones;
+    a snapshot keeps every tracked path outside the current patterns; a checkout changes
+    files and links only inside the current patterns and only what its diff owns. *)
 Theorem C27_checker_spec : forall c,
-  C27Chk.okb c = true <-> forall s, In s (c_steps c) -> sstep_okp (c_untracked c) s.
+  C27Chk.okb c = true <->
+  (forall s, In s (c_steps c) -> sstep_okp (c_untracked c) s)
+  /\ (forall st, In st (c_session c) -> sess_okp (c_untracked c) st).
 Proof. exact okb_spec. Qed.
 
 Check C27_exact_delta.
